@@ -292,7 +292,10 @@ def run_shard(spec, tier, seed):
             # ---- (c'') Medicare tax withheld (W-2 box 6) when Form 8959 reconciles it and finds an excess (line 22 > 0): dollar for dollar
             w6 = sum(fnum(v_) for k_, v_ in base_ans.items() if re.match(r'^w-2:\d+\.box_6$', k_))
             w5 = sum(fnum(v_) for k_, v_ in base_ans.items() if re.match(r'^w-2:\d+\.box_5$', k_))
-            if any(k_.startswith('8959.') for k_ in base) and w6 - 0.0145 * w5 > 1.0:      # (the excess figured from the statements themselves)
+            # (Form 8959 instructions, "Who must file": Medicare wages on any single Form W-2 above $200,000 - the employer then had to
+            # withhold the additional tax, and only Form 8959 brings it to line 25c; decided from the statements, not from what the return filed)
+            one_over = any(fnum(v_) > 200000.0 for k_, v_ in base_ans.items() if re.match(r'^w-2:\d+\.box_5$', k_))
+            if (any(k_.startswith('8959.') for k_ in base) or one_over) and w6 - 0.0145 * w5 > 1.0:      # (the excess figured from the statements themselves)
                 for k in sorted(k_ for k_ in base_ans if re.match(r'^w-2:\d+\.box_6$', k_)):
                     inc = rng.choice([1, 25])
                     ans = dict(base_ans)
